@@ -11,7 +11,7 @@
           0 = the case does not parse. *)
 From Coq Require Import ZArith List String Bool.
 From Verif Require Import Base.Wire Codec.Schema Codec.Value Codec.Xml Codec.Scan Codec.SpecNames
-     Codec.Transport Codec.Wf C04.Spec.
+     Codec.Transport Codec.Big Codec.Wf C04.Spec.
 From VerifGen Require Import GenSchema.
 Import ListNotations.
 Open Scope Z_scope.
@@ -31,8 +31,7 @@ Definition objs_eqb (a b : list (string * value)) : bool :=
 Definition opt_ttree_eqb (a : option ttree) (b : ttree) : bool :=
   match a with Some t => ttree_eqb t b | None => false end.
 
-Definition check : P (list Z) :=
-  T <- pstring ;;
+Definition check_doc (T : string) : P (list Z) :=
   _u <- (if existsb (String.eqb T) top_types then ret tt else pfail) ;;
   v <- pvalue gen_schema PFUEL (TNamed T) ;;
   o <- poracle ;;
@@ -61,6 +60,10 @@ Definition check : P (list Z) :=
       && sok && same_objects sc (collect gen_schema PFUEL (TNamed T) v)
       && match spec_of T with Some s => conforms 16 s tree | None => false end in
     ret (code_if j1 1 ++ code_if j2 2 ++ code_if j3 3)%list.
+
+Definition check : P (list Z) :=
+  T <- pstring ;;
+  if String.eqb T "BIG" then check_big else check_doc T.
 
 Definition check_case (t : toks) : list Z :=
   match parse_all check t with
